@@ -13,6 +13,13 @@ use lance_table::{
 use snafu::location;
 use std::sync::Arc;
 
+fn hash_of<T: std::hash::Hash>(value: &T) -> u64 {
+    use std::hash::Hasher;
+    let mut hasher = std::collections::hash_map::DefaultHasher::new();
+    value.hash(&mut hasher);
+    hasher.finish()
+}
+
 /// Load a row id sequence from the given dataset and fragment.
 pub async fn load_row_id_sequence(
     dataset: &Dataset,
@@ -28,6 +35,7 @@ pub async fn load_row_id_sequence(
             let data = data.clone();
             let key = RowIdSequenceKey {
                 fragment_id: fragment.id,
+                sequence_hash: hash_of(&data),
             };
             dataset
                 .metadata_cache
@@ -39,6 +47,7 @@ pub async fn load_row_id_sequence(
             let dataset_clone = dataset.clone();
             let key = RowIdSequenceKey {
                 fragment_id: fragment.id,
+                sequence_hash: hash_of(&(&file_slice.path, file_slice.offset, file_slice.size)),
             };
             dataset
                 .metadata_cache
